@@ -1,5 +1,12 @@
 import ZixModel.Model.Digest
-/-! # C13 — digests -/
+import ZixModel.Lemmas.Digest
+/-! # C13 — digests are pure, alignment-independent, and sensitive to every input part
+
+Property theorems only; helper lemmas live in `ZixModel/Lemmas/Digest.lean`.  Purity is by
+construction (the model is a function of seed and bytes).  The constants (multipliers, shifts,
+rotations and the multipliers' inverses) are regenerated from src/digest.c on every run, so the
+proofs below must go through the generated names (`decide` on facts such as
+`BitVec.ofNat 64 d64Mul * BitVec.ofNat 64 d64MulInv = 1`), never through hard-coded numerals. -/
 namespace Zix.C13
 open Zix.Digest Zix.Generated
 
@@ -8,6 +15,136 @@ theorem digest_native_word (seed : BitVec 64) (d : List Nat) : digestNative seed
   unfold digestNative
   have : nativeIs64 = true := by decide
   simp [this]
+
+/-! ## aligned variants equal the general ones -/
+
+theorem aligned_eq_general64 (seed : BitVec 64) (ws : List (BitVec 64)) (hlen : 8 * ws.length < 2 ^ 64) :
+    digest64Aligned seed ws = digest64 seed (ws.flatMap bytesOfWord64) := by
+  have _ := hlen  -- the bound is not needed: both sides reduce the length modulo 2^64
+  rw [digest64Aligned_eq, digest64_eq, length_flatMap_bytes64, body64_words, d64MulAligned_eq]
+
+theorem aligned_eq_general32 (seed : BitVec 32) (ws : List (BitVec 32)) :
+    digest32Aligned seed ws = digest32 seed (ws.flatMap bytesOfWord32) := by
+  unfold digest32Aligned digest32
+  rw [length_flatMap_bytes32, body32_words, k32Aligned_eq]
+
+/-! ## sensitivity: seed -/
+
+theorem seed_injective64 (d : List Nat) (s1 s2 : BitVec 64) (h : digest64 s1 d = digest64 s2 d) : s1 = s2 := by
+  rw [digest64_eq, digest64_eq] at h
+  exact xor_right_cancel _ _ _ (body64_m64_inj _ _ _ (mix64_inj _ _ h))
+
+theorem seed_injective32 (d : List Nat) (s1 s2 : BitVec 32) (h : digest32 s1 d = digest32 s2 d) : s1 = s2 := by
+  unfold digest32 at h
+  exact body32_inj _ _ _ (xor_right_cancel _ _ _ (mix32_inj _ _ h))
+
+/-! ## sensitivity: one word-sized block, everything else fixed -/
+
+theorem block_injective64 (seed : BitVec 64) (pre post : List Nat) (hpre : pre.length % 8 = 0)
+    (w1 w2 : BitVec 64)
+    (h : digest64 seed (pre ++ bytesOfWord64 w1 ++ post) = digest64 seed (pre ++ bytesOfWord64 w2 ++ post)) :
+    w1 = w2 := by
+  have hl : (pre ++ bytesOfWord64 w1 ++ post).length = (pre ++ bytesOfWord64 w2 ++ post).length := by
+    simp only [List.length_append, length_bytesOfWord64]
+  rw [digest64_eq, digest64_eq, hl, List.append_assoc, List.append_assoc, body64_append _ _ _ _ hpre,
+    body64_append _ _ _ _ hpre, body64_word, body64_word] at h
+  exact step64_inj_k m64 _ d64Mul_inv _ _ _ (body64_m64_inj _ _ _ (mix64_inj _ _ h))
+
+theorem block_injective32 (seed : BitVec 32) (pre post : List Nat) (hpre : pre.length % 4 = 0)
+    (w1 w2 : BitVec 32)
+    (h : digest32 seed (pre ++ bytesOfWord32 w1 ++ post) = digest32 seed (pre ++ bytesOfWord32 w2 ++ post)) :
+    w1 = w2 := by
+  have hl : (pre ++ bytesOfWord32 w1 ++ post).length = (pre ++ bytesOfWord32 w2 ++ post).length := by
+    simp only [List.length_append, length_bytesOfWord32]
+  unfold digest32 at h
+  rw [hl, List.append_assoc, List.append_assoc, body32_append _ _ _ _ hpre,
+    body32_append _ _ _ _ hpre, body32_word, body32_word] at h
+  exact step32_inj_k _ _ _ (body32_inj _ _ _ (xor_right_cancel _ _ _ (mix32_inj _ _ h)))
+
+/-! ## sensitivity: length, by zero-extension that keeps the number of whole blocks -/
+
+/-- MurmurHash3-32: zero-extending within the tail block always changes the digest. -/
+theorem length_zero_extension32 (seed : BitVec 32) (d : List Nat) (k : Nat) (hk : 0 < k)
+    (hb : (d.length + k) / 4 = d.length / 4) (hlen : d.length + k < 2 ^ 32) :
+    digest32 seed (d ++ List.replicate k 0) ≠ digest32 seed d := by
+  obtain ⟨pre, t, rfl, hp, ht⟩ := split_blocks 4 d
+  have hp4 : pre.length % 4 = 0 := by rw [hp]; exact Nat.mul_mod_right _ _
+  have ht4 : t.length + k < 4 := by omega
+  intro e
+  unfold digest32 at e
+  rw [List.append_assoc, body32_append _ _ _ _ hp4, body32_append _ _ _ _ hp4,
+    body32_short _ _ (t ++ List.replicate k 0) (by rw [List.length_append, List.length_replicate]; exact ht4),
+    body32_short _ _ t (by omega), leWord32_append_zeros, ← List.append_assoc, List.length_append,
+    List.length_replicate] at e
+  exact ofNat_ne_of_lt 32 _ k hk hlen (xor_left_cancel _ _ _ (mix32_inj _ _ e))
+
+/-- fasthash64, PARTIAL: zero-extending a non-empty tail block always changes the digest.
+(The full statement — also when the old length is a multiple of 8 — is FALSE for the algorithm:
+see `length_zero_extension64_counterexample`.) -/
+theorem length_zero_extension64_partial (seed : BitVec 64) (d : List Nat) (k : Nat) (hk : 0 < k)
+    (hr : d.length % 8 ≠ 0) (hb : (d.length + k) / 8 = d.length / 8) (hlen : d.length + k < 2 ^ 64) :
+    digest64 seed (d ++ List.replicate k 0) ≠ digest64 seed d := by
+  obtain ⟨pre, t, rfl, hp, ht⟩ := split_blocks 8 d
+  have hp8 : pre.length % 8 = 0 := by rw [hp]; exact Nat.mul_mod_right _ _
+  have ht8 : t.length + k < 8 := by omega
+  have htne : t ≠ [] := by
+    intro c
+    have hc := congrArg List.length c
+    rw [List.length_nil] at hc
+    omega
+  have htne' : t ++ List.replicate k 0 ≠ [] := by
+    intro c; exact htne (List.append_eq_nil_iff.mp c).1
+  intro e
+  rw [digest64_eq, digest64_eq, List.append_assoc, body64_append _ _ _ _ hp8, body64_append _ _ _ _ hp8,
+    body64_short _ _ (t ++ List.replicate k 0)
+      (by rw [List.length_append, List.length_replicate]; exact ht8) htne',
+    body64_short _ _ t (by omega) htne, leWord64_append_zeros, ← List.append_assoc,
+    List.length_append (bs := List.replicate k 0), List.length_replicate] at e
+  have e1 := body64_m64_inj _ _ _ (step64_inj_h m64 _ d64Mul_inv _ _ _ (mix64_inj _ _ e))
+  exact ofNat_ne_of_lt 64 _ k hk hlen (mul_inj_of_inv _ _ d64Mul_inv _ _ (xor_left_cancel _ _ _ e1))
+
+/-- fasthash64 from a block-aligned length of at most one block: adding 1..7 zero bytes changes the digest. -/
+theorem length_zero_extension64_short (seed : BitVec 64) (d : List Nat) (k : Nat) (hk : 0 < k) (hk7 : k < 8)
+    (hd : d.length = 0 ∨ d.length = 8) :
+    digest64 seed (d ++ List.replicate k 0) ≠ digest64 seed d := by
+  intro e
+  have hzne : List.replicate k 0 ≠ [] := by
+    intro c
+    have := congrArg List.length c
+    simp at this
+    omega
+  have hzl : (List.replicate k 0).length < 8 := by rw [List.length_replicate]; exact hk7
+  rcases hd with hd | hd
+  · have : d = [] := List.eq_nil_of_length_eq_zero hd
+    subst this
+    rw [digest64_eq, digest64_eq, List.nil_append, body64_short _ _ _ hzl hzne, leWord64_zeros,
+      List.length_replicate, body64.eq_2] at e
+    have e1 := mix64_inj _ _ e
+    unfold step64 at e1
+    rw [mix64_zero, BitVec.xor_zero] at e1
+    simp only [List.length_nil, BitVec.zero_mul, BitVec.xor_zero] at e1
+    exact short0_64 k hk hk7 seed e1
+  · obtain ⟨b0, b1, b2, b3, b4, b5, b6, b7, r, rfl⟩ := exists_cons8 d (by omega)
+    have : r = [] := List.eq_nil_of_length_eq_zero (by simp only [List.length_cons] at hd; omega)
+    subst this
+    rw [digest64_eq, digest64_eq, body64_append _ _ _ _ (by rw [hd]), body64_short _ _ _ hzl hzne,
+      leWord64_zeros, body64.eq_1, body64.eq_2, body64.eq_1, body64.eq_2, List.length_append,
+      List.length_replicate, hd] at e
+    have e1 := mix64_inj _ _ e
+    unfold step64 at e1
+    rw [mix64_zero, BitVec.xor_zero] at e1
+    have e2 := mul_inj_of_inv _ _ d64Mul_inv _ _ e1
+    exact short1_64 k hk hk7 seed _ e2
+
+/-- Kernel-checked witness that the unrestricted length clause fails for fasthash64 (recorded as a
+known finding; replayed on the implementation by bin/check C13): 16 bytes and the same 16 bytes
+followed by four zero bytes have the same digest under this seed. -/
+theorem length_zero_extension64_counterexample :
+    digest64 (BitVec.ofNat 64 18357787755532864394)
+      [0x00, 0xbf, 0xa9, 0x66, 0xa0, 0x97, 0xa8, 0x92, 0x3a, 0xa8, 0x3d, 0xbb, 0x32, 0xef, 0x82, 0x7f] =
+    digest64 (BitVec.ofNat 64 18357787755532864394)
+      ([0x00, 0xbf, 0xa9, 0x66, 0xa0, 0x97, 0xa8, 0x92, 0x3a, 0xa8, 0x3d, 0xbb, 0x32, 0xef, 0x82, 0x7f] ++ [0, 0, 0, 0]) := by
+  decide
 
 /-- The aligned and the general variant use the same constants. -/
 theorem aligned_constants_eq : d64MulAligned = d64Mul ∧ k32Aligned = k32 := by
